@@ -271,7 +271,7 @@ func hasMoveOperand(v any) bool {
 		case map[string]any:
 			pt, _ := x["Type"].(string)
 			for k, val := range x {
-				if m, ok := val.(map[string]any); ok && operandKeys[k] && strings.HasSuffix(pt, "Expression") && pt != "UnaryExpression" &&
+				if m, ok := val.(map[string]any); ok && operandKeys[k] && strings.HasSuffix(pt, "Expression") &&
 					m["Type"] == "UnaryExpression" && m["Operation"] == "OperationMove" {
 					found = true
 				}
@@ -350,6 +350,10 @@ func knownC38(rec *evid.Rec, j1 any, msg, printed string) string {
 func knownPrinterDefect(isKnown func(string) bool, j1 any, msg, printed string) string {
 	rec := knownFunc(isKnown)
 	switch {
+	case rec.Known("FS40") && strings.Contains(msg, "program too ambiguous, local replay limit"):
+		// FS40: the printed form puts spaces around `<`/`,` inside an ambiguous `a < b, c > (d)` region; whitespace tokens count
+		// towards the parser's local replay limit of 64 tokens, so the printed form of an accepted program is rejected
+		return "FS40"
 	case rec.Known("FS23") && strings.Contains(msg, "restricted types have been removed") && (strings.Contains(printed, "< fun") || strings.Contains(printed, "< view fun")):
 		// FS23: `a < fun () {}` (less-than with a function expression without return type): the parser's speculative
 		// type-argument parse reports a restricted-type error for `fun () {}` instead of backtracking
@@ -372,6 +376,12 @@ func knownPrinterDefect(isKnown func(string) bool, j1 any, msg, printed string) 
 		return "FS14"
 	case rec.Known("FS36") && strings.Contains(canon(j1), `"DisjunctiveElements":[{"Identifier":{"Identifier":"`) && hasSingleDisjunction(j1):
 		return "FS36"
+	case rec.Known("FS37") && hasNested(j1, "ReferenceType", "ReferencedType", "FunctionType"):
+		// FS37: `&(fun(): R)` is printed as `&fun(): R`; a following `?` (or other suffix) then binds to the return type
+		return "FS37"
+	case rec.Known("FS38") && hasNested(j1, "ReferenceExpression", "Expression", "ReferenceExpression"):
+		// FS38: `&(&a)` (reference expression of a reference expression) is printed as `&&a`, which lexes as the && operator
+		return "FS38"
 	case rec.Known("FS22") && hasNonNominalInstantiation(j1):
 		return "FS22"
 	case rec.Known("FS21") && hasMoveOperand(j1):
@@ -536,7 +546,7 @@ func TestC38(t *testing.T) {
 		knownFS13 = true
 		rec.ReportKnown("FS13", m != "")
 	}
-	for id, repro := range map[string]string{"FS10": "let x = (attach A() to a) / x", "FS11": "let x = (destroy r) + 1", "FS12": "let x: fun(Int) = y", "FS14": "let a = 2 .a", "FS15": "let a: &(&T) = a", "FS16": "entitlement mapping N {}", "FS17": "fun a() { x = (); () }", "FS18": "let x = (-5)[0]", "FS20": "fun f() { pre { a; -b } }", "FS21": "let a = (<-x) as T", "FS22": "let a: (fun(): R)<T> = x", "FS23": "let x = a<fun(){ }", "FS36": "let a: auth(E |) &T = x"} {
+	for id, repro := range map[string]string{"FS10": "let x = (attach A() to a) / x", "FS11": "let x = (destroy r) + 1", "FS12": "let x: fun(Int) = y", "FS14": "let a = 2 .a", "FS15": "let a: &(&T) = a", "FS16": "entitlement mapping N {}", "FS17": "fun a() { x = (); () }", "FS18": "let x = (-5)[0]", "FS20": "fun f() { pre { a; -b } }", "FS21": "let a = (<-x) as T", "FS22": "let a: (fun(): R)<T> = x", "FS23": "let x = a<fun(){ }", "FS36": "let a: auth(E |) &T = x", "FS37": "let a: (&(fun(): R))? = x", "FS38": "let x = &(&a) as &T"} {
 		if rec.Known(id) {
 			m, _ := roundTrip([]byte(repro), false)
 			rec.ReportKnown(id, m != "")
